@@ -26,9 +26,9 @@ func init() {
 		Assumptions: []string{"the reference receiver reads continuously (it buffers DATA) like any deployed receiver", "ids are zero-based STAT positions as documented in receive.go"},
 		Cases: func(tier string) int {
 			if tier == "thorough" {
-				return 8000
+				return 20000
 			}
-			return 500
+			return 1500
 		},
 		Batch:         25,
 		MinNontrivial: func(tier string) int { return 100 },
